@@ -131,6 +131,27 @@ CHECKS = {
             "caught in the first runs. Interleavings are sampled; the evidence lists the distinct sender orders observed.",
             "Trusted: dissononce cipher states of the peer. Senders start after the handshake (C04 covers the handshake thread's writes).",
             "DESIGN.md 4/C11"),
+    "C14": ("exploration",
+            "runtime monitor: reference model of offered/confirmed/consumed one-time keys run in lock-step with a real client stack in the server-double world; upload stanzas checked on the wire, signatures verified independently",
+            "600 (quick) / 30 000 (thorough) histories of 5-30 events (login, key-count request, upload result delivered / error "
+            "reply / connection lost before the result, disconnect, server-side close, restart, a fresh peer's first message "
+            "consuming a one-time key, replay of that message) with batches of 3-15 keys (812 in a few thorough histories). After "
+            "every event the model is compared with load_unsent_prekeys, the stored keys and the uploads seen by the server: "
+            "pending == stored minus confirmed, confirmed keys never re-offered, every offered (id, key) is in the store until a "
+            "delivered first message consumed it and gone afterwards, a replay delivers nothing, identity/registration id match "
+            "the account and the signed prekey verifies under the identity (Curve.verifySignature).",
+            "Trusted: the server double (stores keys on processing the request), python-axolotl. Histories sampled.",
+            "DESIGN.md 4/C14"),
+    "C17": ("exploration",
+            "runtime monitor: harness-side record of every identity a contact published vs. what the observer's key store trusts after each event of generated reinstall/message/restart histories in the world; deliveries judged per direction",
+            "240 (quick) / 20 000 (thorough) histories of 6-20 events over 2-3 real accounts (1:1 and group messages both ways, the "
+            "contact reinstalling with a fresh key store, restarts of either side) with automatic trust off (option unset) or on. "
+            "After every event the harness asks the observer's store which of the contact's identities it trusts: once the two "
+            "have exchanged a message a pin must exist; without automatic trust it must stay the first identity, no message from "
+            "or for the new identity may be delivered; with automatic trust the pin moves forward only and the last message of "
+            "each direction after the change must arrive. Mutants (trust check always true, default on) are caught.",
+            "Trusted: the server double (drops the old installation's keys on re-registration). Histories sampled.",
+            "DESIGN.md 4/C17"),
 }
 
 NOT_BUILT = "check not built yet in this session (planned, see DESIGN.md section 4)"
